@@ -36,7 +36,7 @@ def generate(rng, tier, ctx):
         r, s, R = ecdsa_sign_py(d, m % N, k)
         if r == 0 or s == 0: continue
         Q = pmul(d, G); lo = min(s, N - s); hi = N - lo
-        muts = [('honest-low', r, lo, m, Q), ('high-s', r, hi, m, Q), ('wrong-msg', r, lo, m ^ 1, Q), ('wrong-key', r, lo, m, pmul(d + 1, G)),
+        muts = [('honest-low', r, lo, m, Q), ('high-s', r, hi, m, Q), ('wrong-msg', r, lo, m ^ 1, Q), ('wrong-key', r, lo, m, pmul((d % (N - 2)) + 2, G)),
                 ('neg-key', r, lo, m, pneg(Q)), ('r+1', (r + 1) % N, lo, m, Q), ('s+1', r, (lo + 1) % N, m, Q), ('r0', 0, lo, m, Q), ('s0', r, 0, m, Q),
                 ('zero-pk', r, lo, m, None), ('zero-pk-high', r, hi, m, None), ('msg+n', r, lo, (m % N) + N if (m % N) + N < M256 else m, Q)]
         for cls, rr, ss, mm, QQ in muts:
